@@ -4,9 +4,10 @@ pub fn fract(&self) -> Self
     requires
         B >= 2,
         !(self.repr.significand.v() == 0 && self.repr.exponent != 0),          // finite (documented panic otherwise)
-        // machine ranges (memory limits; overflow of isize in `exponent + digits` is outside this contract)
-        -0x1000_0000_0000_0000 < self.repr.exponent,
-        ndigits(B as int, self.repr.significand.v()) < 0x1000_0000_0000_0000,
+        // machine ranges: `-exponent` fits isize (overflow of isize is outside this contract), fewer than 2^56 digits
+        // (memory limit; `digits_ub() as isize` does not wrap)
+        isize::MIN < self.repr.exponent,
+        ndigits(B as int, self.repr.significand.v()) < 0x100_0000_0000_0000,
     ensures
         // C10: the result is the fractional part l * B^e of the unique split s == t * B^(-e) + l, |l| < B^(-e),
         // l == 0 or sign(l) == sign(s)  [trunc() returns t, so trunc + fract == x]
@@ -37,6 +38,7 @@ pub fn fract(&self) -> Self
         proof {
             let t = choose|t: int| #[trigger] is_trunc_divrem(s, ipow(b, precision as nat), t, lv);
             assert(fl_split(b, s, e, t, lv));
+            lemma_split_exp_room(b, s, precision as nat, t, lv, 0);   // room for Repr::new (resource limit, C16)
         } @*/
         let context = Context::new(precision);
         FBig::new(Repr::new(lo, self.repr.exponent), context)
